@@ -302,3 +302,10 @@ Example C10_l2_key_assumption_needed :
   let o := fst (protect Toy.tkdf Toy.tl1seed Toy.tnokey ToyD13.dc13 empty_cache 0 None 361 7 31) in
   o_pub o = false /\ o_pos o = (361, 7, 31) /\ o_key o = Ok Toy.tnokey /\ Toy.tnokey <> Toy.tkey 1 0 361 7 31.
 Proof. exact ToyD13.l2_key_assumption_needed. Qed.
+
+(* the property is stated for sync and async callers alike: the async public functions are the same programs as the sync
+   ones up to await / the async DC helpers (normalised-AST comparison regenerated on every run), so the model's
+   Start / Finish events are their common semantics *)
+Theorem C10_sync_async_same_source : twin_ncrypt_unprotect_secret = true /\ twin_ncrypt_protect_secret = true.
+Proof. exact public_twins. Qed.
+Print Assumptions C10_sync_async_same_source.
